@@ -217,7 +217,21 @@ CLAIMS['C11'] = dict(
     note=('relative to: clang-14 lowering, STIR, C10, C12, C16; texts < 2^28 units (library contract); level "other": necessary clauses over '
           'the whole configuration space, not the full output equation'),
     technique='static analysis: abstract interpretation of the layout routines with all format_spec fields symbolic; emitted unit sequence vs the rendering table, witness search')
+CLAIMS['C17'] = dict(
+    level='other',
+    text=('Structural argument: a format call emits the sequence of append(data,size) / append_char(ch,count) calls that the one shared '
+          'driver makes on the abstract writer, so sinks receive the same bytes iff every concrete writer hands each call to its sink '
+          'unchanged. Decided by abstract interpretation with data, size, ch and count symbolic: append of the FILE* / narrow-stream / '
+          'string writers is one hand-over of exactly [data, data+size) (fwrite, ostream::write, string_stream::append); the wchar_t / '
+          'char16_t / char32_t stream writers write the whole buffer returned by the conversion into that stream\'s encoding '
+          '(utf8_to_wchar / utf8_to_utf16 / utf8_to_utf32) of (data,size); append_char emits one unit equal to ch per iteration of a loop '
+          'that runs count times (or forwards to string_stream::append_char); every format / format_latin_1 / printf / writef / _stfmt '
+          'instantiation builds one writer over its format string and runs apply_format, the string forms ending in to_string(true, mode) '
+          'resp. to_string(false, assume_valid); operator<< inserts basic_string(b.data(), b.size()) of to_buffer(b) and operator>> sets '
+          'the string from the extracted token (c_str(), size()). Not decided: that libc / iostream deliver what they are handed, what the '
+          'conversions and the driver produce (C01-C03, C10, C11); a writer that buffers or chunks its output is reported undecided.'),
+    note=('relative to: clang-14 lowering, STIR, libc / libstdc++ output primitives trusted, C10 (dispatch only through append / append_char), '
+          'C16; writers instantiated in gen/driver.cpp; level "other": necessary hand-over facts plus a stated (not mechanised) induction over the call sequence'),
+    technique='static analysis: abstract interpretation of the sink members with symbolic arguments (sink-call events vs the arguments received), call-graph facts for the entry points')
 NOT_APPLICABLE = {
- 'C17': ('byte-identity of what FILE*, narrow / wide streams and ST::format deliver is a statement about data moving through libc / '
-         'iostream at run time; no sound static argument in reach decides it (DESIGN.md section 5); the structural clause sketched in the design is not built'),
 }
